@@ -13,6 +13,7 @@ environment, any stream (a list of chunks), any chunking.
 -/
 import Fatchoy.Model.C02Params
 import Fatchoy.Lemmas.CodecBitflip
+import Fatchoy.Lemmas.CodecLenData
 namespace Fatchoy.C02
 open Fatchoy.Codec Fatchoy.Crc32
 
@@ -89,6 +90,16 @@ theorem C02_truncated (P : Params) (hv : Valid02 P) (F : Fmt) (hF : F = P.v1 ∨
   rw [List.length_append, hl] at hk
   exact truncated_frame hF' e' hl hn rfl (by omega) hk hcs
 
+/-- the regenerated facts about `WriteLenData` / `ReadLenData` as a pair -/
+theorem C02_valid_lendata : ValidLd params := by decide
+
+/-- a length-prefixed record (as `WriteLenData` emits it, any payload of 0..65532 bytes) cut at any
+    offset before its end is answered with an error, never delivered -/
+theorem C02_truncated_lendata (P : Params) (hv : ValidLd P) (data : Bytes) (h : data.length ≤ 65532) (k : Nat)
+    (hk : k < data.length + 2) (cs : Chunks) (hcs : flat cs = (writeLenData P data).bytes.take k) :
+    (readLenData P cs).res = .error .eof ∨ (readLenData P cs).res = .error .short :=
+  lendata_truncated P hv data h k hk cs hcs
+
 /-- a complete frame whose body does not match its flags is answered with an error, whatever the
     rest of its header says and whether or not there are body bytes: (1) more references announced
     than the payload holds; (2) encrypted bit and no decryptor; (3) compressed bit on a body that
@@ -143,12 +154,14 @@ theorem C02_crc32_flip (m : Bytes) (i : Nat) (h : i < 8 * m.length) : crc32 (fli
 
 /-- the full single-bit statement of the property: ANY flipped bit of the frame of an accepted packet,
     anything following on the stream, is answered with an error.  NOT proved, and not provable from
-    the checksum alone: a flip in the length field that *decreases* it changes which bytes the
-    checksum covers, and CRC-32 gives no guarantee for that (by counting, frames with an undetected
-    such flip exist, at a rate of about 2^-32).  `C02_bitflip_partial` covers every bit outside the
-    length field, `C02_len_refused` the flips that leave [header, max], `C02_len_beyond_stream` the
-    flips that increase the length of a frame at the end of the stream; the correspondence run
-    tries every flip, including the length-decreasing ones, on its frames. -/
+    the checksum alone: a flip in the length field changes which bytes the checksum covers, and
+    CRC-32 gives no guarantee across different coverings (by counting, frames with an undetected
+    such flip exist, at a rate of about 2^-32).  What IS proved about it:
+    `C02_bitflip_partial` (every bit outside the length field: always a checksum error),
+    `C02_bitflip_len_iff` (a length-field flip is refused, runs into the end of the stream, or passes
+    the checksum comparison if and only if two different byte strings collide under CRC-32) and
+    `C02_bitflip_classified` (this statement with the collision as its only exception).
+    The correspondence run tries every flip, the length-field ones included, on its frames. -/
 def C02_bitflip_full : Prop :=
   ∀ (P : Params), Valid02 P → ∀ (F : Fmt), F = P.v1 ∨ F = P.v2 → ∀ (e : Env) (p p' : Pkt) (w : Bytes),
     marshalBody P e p = .ok (w, p') → (F.v2 = true → p.refs.length ≤ 255) → frameLen F p w ≤ F.max →
@@ -169,6 +182,65 @@ theorem C02_bitflip_partial (P : Params) (hv : Valid02 P) (F : Fmt) (hF : F = P.
   rw [hb] at hcs hi
   rw [List.length_append, hl] at hi
   exact bitflip_frame hF' e' hl hn rfl (by omega) hcrc i hlo hi hcs
+
+/-- a flipped bit INSIDE the length field, characterised completely.  For the frame `hdr ++ pl` of
+    any accepted packet, bit `i` of the length field flipped, anything (`tail`) following: with `n'`
+    the damaged length, the read is refused (`n'` outside [header, max]); or ends in end-of-stream
+    (fewer than `n' - header` bytes follow the header); or it is `UnmarshalPacket` of the damaged
+    header and the first `n' - header` bytes behind it, and then it fails the checksum comparison
+    IF AND ONLY IF `crc32 m' ≠ crc32 m`, where `m` are the bytes the original checksum covered and
+    `m' ≠ m` the bytes the damaged frame makes it cover.  So a length flip — decreasing or increasing —
+    gets past the checksum exactly when two different byte strings have the same CRC-32. -/
+theorem C02_bitflip_len_iff (P : Params) (hv : Valid02 P) (F : Fmt) (hF : F = P.v1 ∨ F = P.v2) (e : Env) (p p' : Pkt)
+    (w : Bytes) (hm : marshalBody P e p = .ok (w, p')) (hr : F.v2 = true → p.refs.length ≤ 255)
+    (fit : frameLen F p w ≤ F.max) (i : Nat) (hi : i < 8 * lenWidth F) (e' : Env) (tail : Bytes) (cs : Chunks)
+    (hcs : flat cs = flipBit (writePacket P F e p).bytes i ++ tail) :
+    ∃ hdr pl n', (writePacket P F e p).bytes = hdr ++ pl ∧ hdr.length = F.headerSize ∧
+      field? F.get "len" (flipBit hdr i) = some n' ∧
+      (n' < F.headerSize ∨ n' > F.max → (readPacket P F e' cs).res = .error .overflow) ∧
+      (F.headerSize ≤ n' → n' ≤ F.max → (pl ++ tail).length < n' - F.headerSize →
+        (readPacket P F e' cs).res = .error .eof ∨ (readPacket P F e' cs).res = .error .short) ∧
+      (F.headerSize ≤ n' → n' ≤ F.max → n' - F.headerSize ≤ (pl ++ tail).length →
+        let m := hdr.take F.crcCover ++ pl
+        let m' := (flipBit hdr i).take F.crcCover ++ (pl ++ tail).take (n' - F.headerSize)
+        (readPacket P F e' cs).res = unmarshal P F e' (flipBit hdr i) ((pl ++ tail).take (n' - F.headerSize)) ∧
+        m' ≠ m ∧ ((readPacket P F e' cs).res = .error .crc ↔ crc32 m' ≠ crc32 m)) := by
+  obtain ⟨hF', hlo, _⟩ := valid02_fmt hv hF
+  obtain ⟨hdr, pl, hb, hl, _, _, hcrc⟩ := written_frame hF' hv.1.2.2 hm hr fit
+  rw [hb] at hcs
+  obtain ⟨n', h1, h2, h3, h4⟩ := lenflip_frame (P := P) hF' hlo e' hl hcrc i hi hcs
+  exact ⟨hdr, pl, n', hb, hl, h1, h2, h3, h4⟩
+
+/-- what CAN be said about every single-bit flip (`C02_bitflip_full` up to a CRC collision): the
+    frame of any accepted packet with ANY one bit flipped, anything following, is answered with an
+    error — unless the bit is in the length field AND there is a byte string `m'` different from
+    the checksum-covered bytes `m` of the original frame with the same CRC-32.  The residual risk
+    of the single-bit clause of the property is therefore exactly a CRC-32 collision. -/
+theorem C02_bitflip_classified (P : Params) (hv : Valid02 P) (F : Fmt) (hF : F = P.v1 ∨ F = P.v2) (e : Env)
+    (p p' : Pkt) (w : Bytes) (hm : marshalBody P e p = .ok (w, p')) (hr : F.v2 = true → p.refs.length ≤ 255)
+    (fit : frameLen F p w ≤ F.max) (i : Nat) (hi : i < 8 * (writePacket P F e p).bytes.length) (e' : Env)
+    (tail : Bytes) (cs : Chunks) (hcs : flat cs = flipBit (writePacket P F e p).bytes i ++ tail) :
+    (∃ er, (readPacket P F e' cs).res = .error er) ∨
+    (i < 8 * lenWidth F ∧ ∃ hdr pl m', (writePacket P F e p).bytes = hdr ++ pl ∧ hdr.length = F.headerSize ∧
+      m' ≠ hdr.take F.crcCover ++ pl ∧ crc32 m' = crc32 (hdr.take F.crcCover ++ pl)) := by
+  by_cases hlen : 8 * lenWidth F ≤ i
+  · exact Or.inl ⟨_, C02_bitflip_partial P hv F hF e p p' w hm hr fit i hlen hi e' tail cs hcs⟩
+  · have hi' : i < 8 * lenWidth F := by omega
+    obtain ⟨hdr, pl, n', hb, hl, _, h2, h3, h4⟩ :=
+      C02_bitflip_len_iff P hv F hF e p p' w hm hr fit i hi' e' tail cs hcs
+    by_cases hrange : n' < F.headerSize ∨ n' > F.max
+    · exact Or.inl ⟨_, h2 hrange⟩
+    · have hr1 : F.headerSize ≤ n' := by omega
+      have hr2 : n' ≤ F.max := by omega
+      by_cases hshort : (pl ++ tail).length < n' - F.headerSize
+      · rcases h3 hr1 hr2 hshort with h | h
+        · exact Or.inl ⟨_, h⟩
+        · exact Or.inl ⟨_, h⟩
+      · obtain ⟨_, hne, hiff⟩ := h4 hr1 hr2 (by omega)
+        by_cases hcol : crc32 ((flipBit hdr i).take F.crcCover ++ (pl ++ tail).take (n' - F.headerSize)) =
+            crc32 (hdr.take F.crcCover ++ pl)
+        · exact Or.inr ⟨hi', hdr, pl, _, hb, hl, hne, hcol⟩
+        · exact Or.inl ⟨_, hiff.mpr hcol⟩
 
 /-- a header that announces more bytes than the stream still holds (in particular: a frame at the
     end of the stream whose length field was increased by a flipped bit) is answered with an error -/
@@ -253,6 +325,21 @@ example : crc32 (flipBit [0x31, 0x32, 0x33] 13) ≠ crc32 [0x31, 0x32, 0x33] := 
 example := C02_len_beyond_stream params C02_valid params.v1 (Or.inl rfl) hostileEnv
   [[1, 44, 1, 0, 0, 7, 0, 0, 0, 9, 1, 2, 3, 4, 5, 5, 5, 5]] [1, 44, 1, 0, 0, 7, 0, 0, 0, 9, 1, 2, 3, 4] [5, 5, 5, 5] 300
   (by decide) (by decide) (by decide) (by decide)
+
+example := C02_truncated_lendata params C02_valid_lendata [1, 2, 3] (by decide) 4 (by decide) [[0, 5], [1, 2]] (by decide)
+
+/-- every bit of the 19-byte frame, length field included: an error, or a CRC-32 collision -/
+example : ∀ i, i < 8 * 19 → ∀ cs,
+    flat cs = flipBit (writePacket params params.v1 hostileEnv cutPkt).bytes i ++ [1, 2, 3] →
+    (∃ er, (readPacket params params.v1 hostileEnv cs).res = .error er) ∨
+    (i < 8 * lenWidth params.v1 ∧ ∃ hdr pl m', (writePacket params params.v1 hostileEnv cutPkt).bytes = hdr ++ pl ∧
+      hdr.length = params.v1.headerSize ∧ m' ≠ hdr.take params.v1.crcCover ++ pl ∧
+      crc32 m' = crc32 (hdr.take params.v1.crcCover ++ pl)) := by
+  intro i hi cs hcs
+  have hm : marshalBody params hostileEnv cutPkt = .ok ([1, 2, 3, 4, 5], cutPkt) := by rfl
+  have hlen := (write_ok (F := params.v1) (Or.inl C02_valid.1.1) C02_valid.1.2.2 hm (by decide) (by decide)).2.1
+  exact C02_bitflip_classified params C02_valid params.v1 (Or.inl rfl) hostileEnv cutPkt cutPkt [1, 2, 3, 4, 5] hm
+    (by decide) (by decide) i (by rw [hlen]; exact hi) hostileEnv [1, 2, 3] cs hcs
 
 /-- any garbage: a packet or a non-panic error, and the bounds hold -/
 example := C02_total params C02_valid params.v2 (Or.inr rfl) hostileEnv [[0xff, 0x00], [0x13, 0x37]]
